@@ -147,7 +147,7 @@ def case(ctx, i, rec):
         if method == "variational_gamma":
             opts += ["max_it<=0", "popsize_unused", "priors_unused", "eps_unused", "rate_none"]
         else:
-            opts += ["no_popsize_no_priors", "both_popsize_and_priors"]
+            opts += ["no_popsize_no_priors", "both_popsize_and_priors", "bad_popsize_history", "bad_popsize_history"]
         must_reject = str(rng.choice(opts))
         if must_reject == "rate<=0":
             kw["mutation_rate"] = float(rng.choice([0.0, -1e-8, -1.0]))
@@ -173,6 +173,18 @@ def case(ctx, i, rec):
                 kw["population_size"] = 100.0
         elif must_reject == "eps_unused":
             kw["eps"] = 1e-6
+        elif must_reject == "bad_popsize_history":
+            b0 = float(rng.choice([1e-3, 20.0, 1e6])) * scale
+            kw["population_size"] = [
+                {"population_size": [50.0, 500.0, 80.0], "time_breaks": [b0, b0]},            # repeated break
+                {"population_size": [50.0, 500.0, 80.0], "time_breaks": [2 * b0, b0]},        # decreasing
+                {"population_size": [50.0, 500.0], "time_breaks": [0.0]},                     # break at zero
+                {"population_size": [50.0, -5.0], "time_breaks": [b0]},                       # negative size
+                {"population_size": [50.0, 0.0], "time_breaks": [b0]},                        # zero size
+                {"population_size": [50.0, 500.0], "time_breaks": [b0, 2 * b0]},              # lengths disagree
+                {"population_size": [50.0, float("inf")], "time_breaks": [b0]},               # infinite size
+                {"population_size": [50.0, 500.0, 80.0, 7.0], "time_breaks": [b0, 3 * b0, 3 * b0]},
+            ][int(rng.integers(8))]
         elif must_reject == "no_popsize_no_priors":
             kw.pop("population_size", None)
         elif must_reject == "both_popsize_and_priors":
@@ -223,7 +235,7 @@ def case(ctx, i, rec):
 
 def reach(ctx, agg):
     need = {"returned": 200, "rejected_cleanly": 100}
-    for k in ("rate<=0", "mbl<=0", "constr<0", "unknown_method", "max_it<=0", "popsize_unused", "eps_unused", "no_mutations_vg"):
+    for k in ("rate<=0", "mbl<=0", "constr<0", "unknown_method", "max_it<=0", "popsize_unused", "eps_unused", "no_mutations_vg", "bad_popsize_history"):
         need[f"invalid_parameter:{k}"] = 3
     for k in PATHO:
         need[f"inputs:{k}"] = 5
